@@ -176,6 +176,14 @@ def run_plan(module, plan, *, prop=None) -> Ctx:
     return ctx
 
 
+def deep_tier(rng) -> bool:
+    """Thorough tier: about a third of the runs use deeper bounds (longer histories, more entries, more replicas).
+    Draws from the run's PRNG only in the thorough tier, so quick-tier plans are unaffected."""
+    import os
+
+    return os.environ.get("HISTSIM_TIER") == "thorough" and rng.random() < 0.35
+
+
 def make_rng(seed: int) -> random.Random:
     return random.Random(seed)
 
